@@ -5,6 +5,7 @@ Anything that does not parse prints `e BadOp` — the driver never defaults.
 -/
 import LnnVerif.Model.PropEngine
 import LnnVerif.Model.Fol
+import LnnVerif.Model.FolPend
 import LnnVerif.Model.Store
 import LnnVerif.Model.Dual
 import LnnVerif.Model.Train
@@ -53,6 +54,7 @@ structure Ctx where
   fnodes : List (Nat × FNode Nat Q) := []
   tabs : List (Nat × Table Q) := []
   props : List Nat := []                 -- formulae without variables (single empty grounding)
+  pend : List (Nat × List Gr) := []      -- groundings partially quantified formulae still pass on to their bodies
 
 def defaultNode : Node Nat Q := { kind := .atom, bias := 1, alpha := 1 }
 
@@ -81,6 +83,11 @@ def Ctx.fstate (c : Ctx) : FState Nat Q := ⟨c.tabs⟩
 
 def Ctx.setFState (c : Ctx) (s : FState Nat Q) : Ctx :=
   { c with tabs := c.fnodes.map fun p => (p.1, s.get p.1) }
+
+def Ctx.pstate (c : Ctx) : PState Nat Q := ⟨c.fstate, c.pend⟩
+
+def Ctx.setPState (c : Ctx) (p : PState Nat Q) : Ctx :=
+  { c.setFState p.st with pend := p.pend }
 
 def parseGr (s : String) : Option Gr :=
   if s = "-" then some [] else (s.splitOn ".").mapM (·.toNat?)
@@ -241,21 +248,21 @@ def step (c : Ctx) (line : String) : Ctx × String :=
     | _, _, _, _ => bad
   | ["fup", id] =>
     match id.toNat? with
-    | some i => let r := fUp c.fkb i c.fstate; (c.setFState r.1, s!"r {showRat r.2}")
+    | some i => let r := pUp c.fkb i c.pstate; (c.setPState r.1, s!"r {showRat r.2}")
     | none => bad
   | ["fdown", id, idx] =>
     match id.toNat?, parseOptNat idx with
-    | some i, some k => let r := fDown c.fkb i k c.fstate; (c.setFState r.1, s!"r {showRat r.2}")
+    | some i, some k => let r := pDown c.fkb i k c.pstate; (c.setPState r.1, s!"r {showRat r.2}")
     | _, _ => bad
   | ["fpass", dir, ids] =>
     match parseFCalls dir ids with
-    | some calls => let r := runFCalls c.fkb calls c.fstate; (c.setFState r.1, s!"r {showRat r.2}")
+    | some calls => let r := runPCalls c.fkb calls c.pstate; (c.setPState r.1, s!"r {showRat r.2}")
     | none => bad
   | ["finfer", eps, mx, nodes, ups, downs] =>
     match parseRat eps, mx.toNat?, parseIds nodes, parseFCalls "up" ups, parseFCalls "down" downs with
     | some eps, some mx, some nodes, some u, some d =>
-      let r := fInfer c.fkb nodes u d eps mx c.fstate
-      (c.setFState r.state, s!"n {r.steps} {showRat r.total} {if r.converged then 1 else 0}")
+      let r := pInfer c.fkb nodes u d eps mx c.pstate
+      (c.setPState r.state, s!"n {r.steps} {showRat r.total} {if r.converged then 1 else 0}")
     | _, _, _, _, _ => bad
   | ["ftab", ids] =>
     match parseIds ids with
